@@ -25,6 +25,7 @@ def declare(rep):
     rep.rule("C06.IO4", "every configuration field is written from, and reloaded into, the same field at the same position, bit for bit", floor=10)
     rep.rule("C06.IO5", "inner backend delegated at the same position; reloaded inner backend is the one read", floor=15)
     rep.rule("C06.IO6", "every written byte is defined (no padding / uninitialised bytes)", floor=10)
+    rep.rule("C06.IO7", "a reader rejects a stream only on a failed stream-state test or on bytes compared with a constant (framing/width): never depending on configuration or payload values, so every field the writer can dump loads again", floor=20)
 
 
 def strip_num(t):
@@ -132,6 +133,11 @@ def check_pair(rep, g):
             rep.ok("C06.IO4", inst)
         if good6:
             rep.ok("C06.IO6", inst)
+    bad = io.unjustified_throws(g.sr)
+    if bad:
+        rep.fail("C06.IO7", inst, ir.where(bad[0].inst), "the reader can throw depending on configuration/payload values (not on framing, width or stream state): some fields the writer dumps would be refused on load")
+    else:
+        rep.ok("C06.IO7", inst)
     # IO5: delegate
     if m["probe"]:
         dW = [i for i in W if i["kind"] == "delegate"]
@@ -150,6 +156,19 @@ def run(rep, tier):
     for g in gs:
         check_pair(rep, g)
     io_array.run_c06(rep, tier)
+    for h in io.real_readers(tier):
+        inst = "%s<%d,%s^%d> over array (reader)" % (h.meta["layer"], h.meta["N"], h.meta["T"], h.meta["M"])
+        if h.error:
+            from .. import harness
+            loc, msg = harness.first_error(h)
+            rep.fail("C06.IO7", inst, loc, "reader does not compile: " + msg)
+            continue
+        s = ir.Sym(h.func, epochs=True, cut_loops=True)
+        bad = io.unjustified_throws(s)
+        if bad:
+            rep.fail("C06.IO7", inst, ir.where(bad[0].inst), "the reader can throw depending on configuration/payload values (not on framing, width or stream state): some fields the writer dumps would be refused on load")
+        else:
+            rep.ok("C06.IO7", inst)
     return gs
 
 
